@@ -174,7 +174,10 @@ def cross_config(sc, rng):
                         continue
                     same_cache = key[1] == base[0][1]
                     same_lazy = key[0] == base[0][0]
-                    if (outcome, obs) != base[1:]:
+                    # a run that is aborted (refused request, malformed reply, loop guard) stops the other simulators wherever the
+                    # schedule has taken them: then only the way the run ends is compared, not how far everybody got
+                    both_failed = str(outcome).startswith("failed") and str(base[1]).startswith("failed")
+                    if (outcome != base[1]) if both_failed else ((outcome, obs) != base[1:]):
                         # the data-flow findings of C03 are exactly where configurations may differ
                         finding = ms.c03_class(dict(sc, cache=key[1])) or ms.c03_class(dict(sc, cache=base[0][1]))
                         vio.append({"law": "same (time, inputs) sequences for lazy/cache/debug on or off", "scenario": sc, "config_a": base[0], "config_b": key,
